@@ -30,7 +30,9 @@ def run(chk):
     chk.rule = ("value universe U (every kind; 0,-0,±1, fractions, 2^53 neighbours, huge, NaN, ±inf; empty/numeric/"
                 "padded/non-ASCII strings; empty/nested/equal-length arrays with 0-4 dictionary keys in different "
                 "insertion orders), all ordered pairs U×U for equals and compare, U for truthiness and U×k for inc; "
-                "a case is non-trivial/distinct by its (operation, kind of a, kind of b, result class) signature")
+                "a case is non-trivial/distinct by its (operation, kind of a, kind of b, result class) signature; "
+                "compound assignments: 12 operator spellings x 16 operand forms (pronouns, calls that change the target, lists, "
+                "strings, unknown names) x 5 targets (variable, array element, pronoun, unbound, string), each next to its expansion")
     results, agreed = suite.compare(chk, lines, "val", suite_name="VAL")
     # implementation-only oracles: the laws themselves on the real code's answers
     for side in ("debug", "release"):
@@ -105,6 +107,27 @@ def run(chk):
                                        "programs": {k: cases[index[(na, nb, k)]]["src"] for k in ("eq", "le", "ge", "le_and_ge")},
                                        "results": {k: res(na, nb, k) for k in ("eq", "ne", "ne2", "lt", "gt", "le", "ge", "le_and_ge")},
                                        "swapped": {k: res(nb, na, k) for k in ("eq", "lt", "gt", "le", "ge")}})
+    # (4) compound assignment is its expansion: both programs through model and implementation, and the
+    #     implementation's two outputs compared with each other
+    from . import compound
+    prs = compound.pairs()
+    ccases = []
+    for a, b, m in prs:
+        ccases.append({"src": a, "meta": dict(m, form="compound")})
+        ccases.append({"src": b, "meta": dict(m, form="expanded")})
+    crecs = execsuite.run(chk, ccases, "compound", suite_name="EXEC-compound")
+    cbad = 0
+    for k, (a, b, m) in enumerate(prs):
+        for prof in ("debug", "release"):
+            ra, rb = crecs[2 * k]["impl"].get(prof, ""), crecs[2 * k + 1]["impl"].get(prof, "")
+            pa, pb = execsuite.split_out(ra), execsuite.split_out(rb)
+            chk.count("compound:" + (pa[0].split()[0] if pa[0] else "?"))
+            if (execsuite.strip_msg(pa[0]), pa[1]) != (execsuite.strip_msg(pb[0]), pb[1]):
+                cbad += 1
+                if cbad <= 3:
+                    chk.add_violation("`let x be op e` differs from `let x be x op e`",
+                                      {"oracle": "compound-is-expansion", "profile": prof, "src": a, "expanded": b, "meta": m,
+                                       "impl": ra, "impl_expanded": rb})
     chk.samples = [C.decode_hex_fields(l) for l in lines[:3] + lines[len(lines) // 2: len(lines) // 2 + 3]] + [cases[5]["src"]]
     if not proved:
         chk.add_violation("proof obligations of C14 no longer check", chk.proof_failure,
